@@ -386,6 +386,40 @@ func corruptions(p *Program) []corruption {
 			q4.Steps[si].Input = setField(q4.Steps[si].Input, "v", E("$.steps."+p.Steps[si].ID+".disabled.output.message"))
 			out = append(out, corruption{fmt.Sprintf("step %s: string-typed expression for integer field (and self reference)", p.Steps[si].ID), q4, true})
 		}
+		// 2b. ill-typed optional stage-level fields
+		if p.Steps[si].Kind != "foreach" {
+			if p.Steps[si].ClosureMS == nil {
+				q := cloneProg(p)
+				q.Steps[si].ClosureMS = Str("soon")
+				out = append(out, corruption{fmt.Sprintf("step %s: closure_wait_timeout is not a number", p.Steps[si].ID), q, true})
+				q2 := cloneProg(p)
+				q2.Steps[si].ClosureMS = E("$.input.s")
+				out = append(out, corruption{fmt.Sprintf("step %s: string-typed expression for closure_wait_timeout", p.Steps[si].ID), q2, true})
+			}
+			if p.Steps[si].Enabled == nil {
+				q := cloneProg(p)
+				q.Steps[si].Enabled = E("$.input.s")
+				out = append(out, corruption{fmt.Sprintf("step %s: string-typed expression for enabled", p.Steps[si].ID), q, true})
+				q2 := cloneProg(p)
+				q2.Steps[si].Enabled = O("a", I(1))
+				out = append(out, corruption{fmt.Sprintf("step %s: map literal for enabled", p.Steps[si].ID), q2, true})
+			}
+			if p.Steps[si].Deploy == nil {
+				q := cloneProg(p)
+				q.Steps[si].Deploy = I(5)
+				out = append(out, corruption{fmt.Sprintf("step %s: integer literal for deploy", p.Steps[si].ID), q, true})
+			}
+			if p.Steps[si].StopIf == nil && p.Steps[si].PluginStep == "" {
+				q := cloneProg(p)
+				q.Steps[si].PluginStep = "nosig"
+				q.Steps[si].StopIf = E("$.input.flag")
+				out = append(out, corruption{fmt.Sprintf("step %s: stop_if on a plugin step without a cancel signal handler", p.Steps[si].ID), q, true})
+			}
+		} else {
+			q := cloneProg(p)
+			q.Steps[si].Parallelism = Str("many")
+			out = append(out, corruption{fmt.Sprintf("loop %s: parallelism is not a number", p.Steps[si].ID), q, true})
+		}
 		// 3. back edges: wait_for on a step that (transitively) depends on this one, and on itself
 		for sj := range p.Steps {
 			if dependsOn(p, p.Steps[sj].ID, p.Steps[si].ID) || si == sj {
